@@ -207,7 +207,7 @@ impl Property for C20 {
         "C20"
     }
     fn rule(&self) -> String {
-        "exhaustive over the finite vocabularies: every item Analysis::completion offers in the four contexts (file level `c|`, type position `class Foo<i|`, value position `class Foo<int a = t|`, after `!` with the trigger character) must lex (server's own lexer) to exactly one keyword/type/operator token - never Id or Error -, every file-level keyword must not hit the statement-dispatch error and its minimal statement must parse with zero errors; every operator spelling the lexer accepts after `!` (candidates: all string literals of lexer.rs + the reference operator list) must be offered. Class completion: generated workspaces (1..6 classes with 0..3 template parameters of seven types, each without default or with a type-correct default (literal, ?, operator, an earlier int parameter, a bit or bit range of one); root + included file, redefinitions) x every parent-class position x 0..3 typed characters: labels = exactly the classes of the workspace, one ${n} placeholder per template parameter. distinct = vocabulary item spelling / digest of class case; non-trivial = every vocabulary item, class cases with >=2 classes".into()
+        "exhaustive over the finite vocabularies: every item Analysis::completion offers in the four contexts (file level `c|`, type position `class Foo<i|`, value position `class Foo<int a = t|`, after `!` with the trigger character) must lex (server's own lexer) to exactly one keyword/type/operator token - never Id or Error -, every file-level keyword must not hit the statement-dispatch error and its minimal statement must parse with zero errors; every operator spelling the lexer accepts after `!` (candidates: all string literals of lexer.rs + the reference operator list) must be offered. Class completion: generated workspaces (1..6 classes with 0..3 template parameters of seven types, each without default or with a type-correct default (literal, ?, operator, an earlier int parameter, a bit or bit range of one); root + included file, redefinitions) x every parent-class position x 0..3 typed characters: labels = exactly the classes of the workspace, one ${n} placeholder per template parameter; the same at a parent-class position appended to generated (SEM) programs, whose classes and parameter counts are known by construction. distinct = vocabulary item spelling / digest of class case; non-trivial = every vocabulary item, class cases with >=2 classes".into()
     }
     fn families(&self, ctx: &Ctx) -> Vec<Family> {
         vec![
@@ -243,6 +243,13 @@ impl Property for C20 {
                 emit(json!({"kind": "vocab-nonempty"}));
             })
             .exhaustive(),
+            Family::new("class-completion-sem", ctx.tier.pick(100, 4000), |_c, rng, emit| {
+                for _ in 0..50 {
+                    if !emit(json!({"kind": "class-completion-sem", "seed": rng.next() >> 16, "n": 2 + rng.below(8), "opts": "clean"})) {
+                        return;
+                    }
+                }
+            }),
             Family::new("class-completion", ctx.tier.pick(300, 4000), |_c, rng, emit| {
                 for _ in 0..50 {
                     let (files, classes, positions) = class_ws(rng);
@@ -310,10 +317,45 @@ impl Property for C20 {
                 }
                 Verdict::pass(want.len() >= 2)
             }
+            Some("class-completion-sem") => {
+                // a generated (SEM) program with a parent-class position appended to its root: the classes
+                // and their parameter counts are known from the generator
+                use crate::gen::sem::DeclKind;
+                let Some(p) = super::semcase::program_of(case) else { return Verdict::Skip("malformed-case") };
+                let mut files = p.files.clone();
+                files[0].1.push_str("\ndef zz_probe : K");
+                let at0 = files[0].1.len() - 1;
+                let ws = Workspace::new(&files, &files[0].0);
+                let a = ws.analysis();
+                let mut want: Vec<(String, usize)> = p
+                    .decls
+                    .iter()
+                    .filter(|d| d.kind == DeclKind::Class)
+                    .map(|d| (d.name.clone(), p.decls.iter().filter(|t| t.kind == DeclKind::TemplateArg && t.owner == Some(d.id)).count()))
+                    .collect();
+                want.sort();
+                for typed in 0..=1 {
+                    let items = a.completion(pos(ws.root, at0 + typed), None).unwrap_or_default();
+                    let mut got: Vec<(String, usize)> = items
+                        .iter()
+                        .filter(|c| c.kind == CompletionItemKind::Class)
+                        .map(|c| (c.label.clone(), c.insert_text_snippet.as_deref().map(placeholders).unwrap_or(0)))
+                        .collect();
+                    got.sort();
+                    if got != want {
+                        return Verdict::Fail(Failure::new(
+                            "C20.class-completion",
+                            "C20.class-completion:generated-program",
+                            format!("generated program, parent-class position at the end of the root ({typed} typed chars): offered {got:?}, classes of the workspace (with parameter counts) {want:?}\n--- root\n{}", files[0].1),
+                        ));
+                    }
+                }
+                Verdict::pass(want.len() >= 2 && want.iter().any(|w| w.1 > 0))
+            }
             _ => Verdict::Skip("malformed-case"),
         }
     }
     fn shrink_keep(&self) -> &'static [&'static str] {
-        &["kind", "item", "files", "classes", "positions"]
+        &["kind", "item", "files", "classes", "positions", "seed", "opts"]
     }
 }
